@@ -74,6 +74,9 @@ var sentinels = map[string]error{
 
 var repeat = 3
 
+var optionOrders = [][]int{{0, 1, 2}, {1, 0, 2}, {2, 1, 0}, {0, 2, 1}, {1, 2, 0}, {2, 0, 1}}
+var optionOrder int
+
 // render renders w `repeat` times (fresh QueryBuilder each time, so Go's map iteration order
 // varies) and reports any difference between the repetitions.
 func render(w builder.SQLWriter, v, p bool, named map[string]int) Render {
@@ -98,19 +101,32 @@ func render1(w builder.SQLWriter, v, p bool, named map[string]int) (r Render) {
 		}
 	}()
 	qb := builder.Build(w)
-	if !v {
-		qb = qb.WithoutValidation()
+	// the option methods are applied in a different order on every call: the result must not depend on it
+	steps := []func(){
+		func() {
+			if !v {
+				qb = qb.WithoutValidation()
+			}
+		},
+		func() {
+			if p {
+				qb = qb.PrettyPrint()
+			}
+		},
+		func() {
+			if named != nil {
+				m := map[string]any{}
+				for k, id := range named {
+					m[k] = pool[id]
+				}
+				qb = qb.WithNamedArgs(m)
+			}
+		},
 	}
-	if p {
-		qb = qb.PrettyPrint()
+	for _, i := range optionOrders[optionOrder%len(optionOrders)] {
+		steps[i]()
 	}
-	if named != nil {
-		m := map[string]any{}
-		for k, id := range named {
-			m[k] = pool[id]
-		}
-		qb = qb.WithNamedArgs(m)
-	}
+	optionOrder++
 	sql, args, err := qb.ToSQL()
 	r.SQL = hex.EncodeToString([]byte(sql))
 	r.Args = []int{}
@@ -165,6 +181,7 @@ func main() {
 	boost := flag.String("boost", "", "comma separated producer=factor weight multipliers")
 	mode := flag.String("mode", "mixed", "generator: typed, structured, mixed, or a special mode (c06)")
 	stride := flag.Int("stride", 1, "c07: use every stride-th boundary code point")
+	reverse := flag.Bool("reverse", false, "c10: take the first rendering of every value in reverse order")
 	maxLen := flag.Int("maxlen", 3, "c06: exhaustive strings up to this length over the critical alphabet")
 	flag.Parse()
 
@@ -194,7 +211,7 @@ func main() {
 		return
 	}
 	if *mode == "c10" {
-		runC10(w, *seed, *n, repeat)
+		runC10(w, *seed, *n, repeat, *reverse)
 		return
 	}
 	if *mode == "c11" {
